@@ -353,7 +353,7 @@ def build(index, contracts, specs, rec, fid, keep_ends=False):
     ctx.producers = {}
     ctx.minmax_defs = {}
     ctx.contracts_fn_override = {}
-    ctx.opaque_str = set()
+    ctx.opaque_str = {('str', c) for c in getattr(con, 'opaque_str', ())}      # str(obj) of these classes: an uninterpreted function
     ctx.inlined = set()
     ctx.used_contracts = set()
     ctx.wf_on = False
